@@ -108,7 +108,13 @@ def c_plot(c):
         return c
 
 
-CORRUPT = {"TraceSweep": c_sweep, "TraceBottleneck": c_bott, "TraceWasserstein": c_wass, "TraceMGH": c_mgh, "TraceGrid": c_grid, "TraceImager": c_imager,
+def c_acc(c):
+    if c.get("lattice") and c["imgs"] and c["imgs"][0]:
+        c["imgs"][0][0][0] += 1
+        return c
+
+
+CORRUPT = {"TraceAccumulate": c_acc, "TraceSweep": c_sweep, "TraceBottleneck": c_bott, "TraceWasserstein": c_wass, "TraceMGH": c_mgh, "TraceGrid": c_grid, "TraceImager": c_imager,
            "TraceTransformers": c_transf, "TraceAlgebra": c_algebra, "TraceNorms": c_norms, "TraceEntropy": c_entropy, "MetricLaws": c_laws,
            "TraceKernel": c_kernel, "TraceImage": c_image, "TracePure": c_pure, "PlotScene": c_plot}
 RESULTS = {}
